@@ -281,11 +281,26 @@ class Ctx:
         return paths
 
     # ---- obligations
-    def require(self, p, cond, what, known=(), judge=None):
+    NO_VERDICT = ("unsupported", "unwind")
+
+    def report(self, p, desc):
+        """record a violation found by a check's own oracle - unless the path ended because the ENGINE could not go on
+        (unsupported construct, unwinding bound): such a path says nothing about the code and makes the check inconclusive"""
+        if p.status in self.NO_VERDICT:
+            self.inconclusive.append("%s: path ended %s: %s (no verdict)" % (self.name, p.status, p.info))
+        else:
+            self.violations.append(desc)
+
+    def require(self, p, cond, what, known=(), judge=None, force=False):
         """Obligation: on path p, cond holds for every value of the symbolic inputs.
         known: [(finding_id, predicate)] - inputs matching a predicate whose id is listed in
-        known_findings.txt are excluded and reported as KNOWN-FINDING instead."""
+        known_findings.txt are excluded and reported as KNOWN-FINDING instead.
+        A path the engine could not finish (unsupported / unwind) carries no verdict unless force is set (a check that
+        has an argument why exceeding its bound is itself the violation)."""
         self.obligations += 1
+        if p.status in self.NO_VERDICT and not force:
+            self.inconclusive.append("%s: path ended %s: %s (no verdict on: %s)" % (self.name, p.status, p.info, what[:80]))
+            return False
         neg = z3.Not(cond)
         excl = []
         for fid, pred in known:
@@ -316,9 +331,9 @@ class Ctx:
         self._counterexample(p, m, what, judge)
         return False
 
-    def fail(self, p, what):
+    def fail(self, p, what, force=False):
         """Obligation that path p must not exist at all."""
-        return self.require(p, z3.BoolVal(False), what)
+        return self.require(p, z3.BoolVal(False), what, force=force)
 
     def expect(self, paths, **kinds):
         """Vacuity guard: the explored paths must include at least n of each named status."""
@@ -702,6 +717,25 @@ def install_env_stubs(eng):
                "_ZSt17__throw_bad_allocv", "_ZSt19__throw_logic_errorPKc", "_ZSt24__throw_out_of_range_fmtPKcz",
                "_ZSt20__throw_out_of_rangePKc"):
         eng.stubs[nm] = throw_stub
+    # ---- libstdc++ hashing support (unordered containers keyed by concrete strings / integers)
+    def hash_bytes(e, st, args, ins):
+        # std::_Hash_bytes(ptr, len, seed): any deterministic function of the bytes models it (FNV-1a here); the bytes
+        # must be concrete (symbol names are)
+        p, n = simp(args[0]), simp(args[1])
+        if not (is_conc(p) and is_conc(n)) or n.as_long() > 4096:
+            raise symex.Unsupported("hash of a symbolic byte string")
+        h = 0xcbf29ce484222325 ^ (simp(args[2]).as_long() if is_conc(simp(args[2])) else 0)
+        for i in range(n.as_long()):
+            b = simp(e.load(st, BV(p.as_long() + i, 64), 1, check=False))
+            if not is_conc(b):
+                raise symex.Unsupported("hash of a symbolic byte string")
+            h = ((h ^ b.as_long()) * 0x100000001b3) & 0xFFFFFFFFFFFFFFFF
+        return [(st, BV(h, 64))]
+    eng.stubs["_ZSt11_Hash_bytesPKvmm"] = hash_bytes
+    # std::__detail::_Prime_rehash_policy: the table never grows in the model (all elements chain in the buckets it has);
+    # semantics of find/insert/erase do not depend on the bucket count
+    eng.stubs["_ZNKSt8__detail20_Prime_rehash_policy14_M_need_rehashEmmm"] = lambda e, st, args, ins: [(st, [BV(0, 8), BV(0, 64)])]
+    eng.stubs["_ZNKSt8__detail20_Prime_rehash_policy11_M_next_bktEm"] = lambda e, st, args, ins: [(st, z3.If(simp(args[1]) == 0, BV(1, 64), simp(args[1])))]
     eng.stubs["__cxa_atexit"] = lambda e, st, args, ins: [(st, BV(0, 32))]
     eng.stubs["__cxa_guard_acquire"] = None  # replaced below
     def guard_acquire(e, st, args, ins):
